@@ -81,7 +81,28 @@ func (nn *nonNil) Value(v ssa.Value, b *ssa.BasicBlock, depth int) bool {
 		if isLibCall(&x.Call, "errors", "", "New") || isLibCall(&x.Call, "fmt", "", "Errorf") || isLibCall(&x.Call, "strings", "", "NewReader") {
 			return true
 		}
+	case *ssa.TypeAssert:
+		// single-result assertion to a pointer type: panics unless it holds;
+		// by the module-wide invariant (C11.R1) interfaces never hold nil item pointers
+		if !x.CommaOk {
+			if _, isPtr := x.AssertedType.Underlying().(*types.Pointer); isPtr {
+				return true
+			}
+		}
 	case *ssa.Extract:
+		if ta, ok := x.Tuple.(*ssa.TypeAssert); ok && x.Index == 0 {
+			if _, isPtr := ta.AssertedType.Underlying().(*types.Pointer); isPtr {
+				okv := false
+				for _, f := range factsOf(b.Parent()).At(b) {
+					if ex, ok := f.Cond.(*ssa.Extract); ok && ex.Tuple == ssa.Value(ta) && ex.Index == 1 && f.Truth {
+						okv = true
+					}
+				}
+				if okv {
+					return true // successful assertion; non-nil by the invariant of C11.R1
+				}
+			}
+		}
 		if call, ok := x.Tuple.(*ssa.Call); ok {
 			if sc := call.Call.StaticCallee(); sc != nil && nn.P.IsServitorFunc(sc) {
 				if nn.freshReturning(sc, x.Index) {
@@ -102,12 +123,19 @@ func (nn *nonNil) Value(v ssa.Value, b *ssa.BasicBlock, depth int) bool {
 			}
 		}
 	case *ssa.Phi:
+		all := true
 		for k, ed := range x.Edges {
-			if !nn.Value(ed, x.Block().Preds[k], depth+1) {
-				return knownNonNil(v, b)
+			pred := x.Block().Preds[k]
+			okEdge := false
+			withEdge(pred, x.Block(), func() { okEdge = nn.Value(ed, pred, depth+1) })
+			if !okEdge {
+				all = false
 			}
 		}
-		return true
+		if all {
+			return true
+		}
+		return knownNonNil(v, b)
 	case *ssa.Parameter:
 		if knownNonNil(v, b) {
 			return true
@@ -126,6 +154,13 @@ func (nn *nonNil) Value(v ssa.Value, b *ssa.BasicBlock, depth int) bool {
 			}
 			// local variable assigned once
 			if w := unwrapLoad(v); w != v {
+				if w.Parent() != nil && w.Parent() != b.Parent() {
+					// captured from an enclosing function: judge it where the closure is created
+					if mb := closureCreationBlock(b.Parent(), w.Parent()); mb != nil {
+						return nn.Value(w, mb, depth+1)
+					}
+					return false
+				}
 				return nn.Value(w, b, depth+1)
 			}
 		}
@@ -157,6 +192,13 @@ func (nn *nonNil) paramNonNil(p *ssa.Parameter) bool {
 		cc := e.Site.Common()
 		args := cc.Args
 		if cc.IsInvoke() {
+			if idx == 0 {
+				// receiver of a dynamically dispatched call: the interface was
+				// non-nil (or the call panicked before entering) and, by the
+				// module-wide invariant established by C11.R1, interfaces never
+				// hold nil item pointers
+				continue
+			}
 			args = append([]ssa.Value{cc.Value}, cc.Args...)
 		}
 		if idx >= len(args) || !nn.Value(args[idx], e.Site.Block(), 1) {
@@ -350,4 +392,22 @@ func (nn *nonNil) producerSound(fn *ssa.Function, idx int) bool {
 		nn.memo[key] = -1
 	}
 	return ok
+}
+
+// closureCreationBlock: the block of ancestor `outer` in which the closure
+// chain leading to fn is created.
+func closureCreationBlock(fn, outer *ssa.Function) *ssa.BasicBlock {
+	for fn != nil && fn.Parent() != outer {
+		fn = fn.Parent()
+	}
+	if fn == nil {
+		return nil
+	}
+	var blk *ssa.BasicBlock
+	eachInstr(outer, func(b *ssa.BasicBlock, _ int, in ssa.Instruction) {
+		if mc, ok := in.(*ssa.MakeClosure); ok && mc.Fn == ssa.Value(fn) {
+			blk = b
+		}
+	})
+	return blk
 }
